@@ -48,6 +48,22 @@ def job_run(job):
             e = {m["name"]: (int(min(round(abs(preds[(m["name"], xif)][i] - r) / abs(r) * 1e9), 2**30)) if r != 0 else 2**30) for m in family[:-1]}
             lines.append(dict(what="refine", case=case["id"], x=x, xq=int(round(x * 1e6)), xif=xif, errs=[[k, v] for k, v in e.items()], finite=bool(np.isfinite(r)),
                               note=f"reference {r!r}; relative deviations (1e-9): {e}"))
+    # the coarse member's node set listed in other orders (descending; odd-indexed nodes appended after the even-indexed ones)
+    m0 = family[0]
+    xg0 = list(grid_of(m0))
+    worst = {}
+    for order in (xg0[::-1], xg0[::2] + xg0[1::2]):
+        out = cards.run(cards.theory(mc=2.0, mb=5.0, mt=170.0, Q0=1.0, **th_kw),
+                        cards.obs({name: [dict(x=x, Q2=Q2) for x in XS]}, xgrid=order, deg=m0["deg"], **ob_kw))
+        p = [float(e["result"]) for e in out.apply_pdf_alphas_alphaqed_xir_xif(Toy(), lambda mu: 0.25, lambda mu: 1 / 137, 1.0, 2.0)[name]]
+        for i, x in enumerate(XS):
+            r = preds[(m0["name"], 2.0)][i]
+            d = abs(p[i] - r) / abs(r) if r != 0 else float("inf")
+            worst[i] = max(worst.get(i, 0.0), d)
+    for i, x in enumerate(XS):
+        lines.append(dict(what="listing", case=case["id"], x=x, xq=int(round(x * 1e6)), xif=2.0,
+                          errs=[["listing", int(min(round(worst[i] * 1e9), 2**30)) if np.isfinite(worst[i]) else 2**30]], finite=bool(np.isfinite(worst[i])),
+                          note=f"largest relative change under re-listing of the nodes: {worst[i]:.3e}"))
     # node continuity on the coarse member
     m0 = family[0]
     xg = grid_of(m0)
